@@ -553,7 +553,7 @@ class Povm(QOperation):
             matrix of measurement.
         """
         vec = self.vec(index)
-        new_vec = c_sys.basis_T_sparse.dot(self.vec)
+        new_vec = self.composite_system.basis_T_sparse.dot(vec)
         matrix = new_vec.reshape((self.dim, self.dim))
         return matrix
 
